@@ -646,6 +646,35 @@ class Runtime:
             res = self.merge(kw == i, items[i], res, 'select')
         return res
 
+    def dict_get(self, obj, *args):
+        """obj.get(key[, default]) - for a real dict and a symbolic key: fork on presence, then select"""
+        if not isinstance(obj, dict) or not args or len(args) > 2:
+            return obj.get(*args)
+        key = args[0]
+        default = args[1] if len(args) > 1 else None
+        if isinstance(key, Lazy):
+            key = key.force()
+        if isinstance(key, Lookup):
+            key = key.materialise()
+        if getattr(key, 'sx_is_str', False) and hasattr(key, 'c'):
+            if key.concrete():
+                return obj.get(key.text(), default)
+            try:
+                return self._select_dict_text(obj, key)
+            except KeyError:
+                return default
+        if isinstance(key, (SInt, SNum)):
+            ks = [k for k in obj.keys() if isinstance(k, int) and not isinstance(k, bool)]
+            member = False
+            for k in ks:
+                member = bor_b(member, key == k)
+            if not bool(member):          # forks
+                return default
+            return self._select_dict(obj, key)
+        if isinstance(key, tuple) and any(is_sym(x) for x in key):
+            raise Unsupported('dict.get with a tuple key holding symbolic elements')
+        return obj.get(*args)
+
     def _select_dict(self, obj, key):
         ks = [k for k in obj.keys() if isinstance(k, int) and not isinstance(k, bool)]
         member = False
